@@ -39,6 +39,10 @@ def to_scenario(c):
             first["hold_count"] = 0
         prog = [("call", first), ("next", 1, k, mode, 0), ("call", {"n": n, "input": "gen"}), ("exhaust", 1),
                 ("call", {"n": n, "input": "gen"}), ("exhaust", 3)]
+    elif s == "overlap-finished":
+        # no withholding: in the schedules where every task of run 1 has completed (and the consumer pulled once more)
+        # the object accepts the second call - the rest of run 1's results must still come out of its generator
+        prog = [("call", first), ("next", 1, max(1, k)), ("call", {"n": n, "input": "gen"}), ("exhaust", 1), ("exhaust", 2)]
     elif s == "with-exit":
         prog = [("enter",), ("call", first), ("next", 1, k), ("exit",), ("drop", 1),
                 ("call", {"n": n, "input": "gen"}), ("exhaust", 2)]
@@ -90,9 +94,13 @@ def judge(cfg, obs):
         if "exc" in r:
             if r["kind"] == "call":
                 call_exc[c] = r["exc"]
+            elif c in call_exc and r["exc"][0] == "KeyError":
+                pass        # the harness has no generator for a call that raised: nothing to pull from
             elif r["exc"][0] != "StopIteration" or r["kind"] != "next":
                 bad.append(("exception-in-%s:%s|%s" % (r["kind"], r["exc"][0], tag), "step %s (call %s) raised %s%r" % (r["kind"], c, r["exc"][0], r["exc"][1])))
     expect_runtime = {2} if s in ("overlap", "with-exit-overlap") else set()
+    if s == "overlap-finished" and 2 in call_exc and call_exc[2][0] == "RuntimeError":
+        expect_runtime = {2}     # the generator of run 1 is not exhausted: rejecting the call is always acceptable
     for c in sorted(set(list(received) + list(call_exc))):
         if c in expect_runtime:
             continue
@@ -154,16 +162,22 @@ def plan(ctx):
         configs.append(dict(base, script="exhaust"))
         configs.append(dict(base, script="prompt"))
         for k in ((0, 2) if quick else range(0, n)):
-            for s in ("close", "drop", "overlap", "with-exit", "with-exit-overlap", "with-close"):
+            for s in ("close", "drop", "overlap", "overlap-finished", "with-exit", "with-exit-overlap", "with-close"):
                 for ab in ("drop", "zombie"):
-                    if s in ("overlap", "with-exit-overlap") and ab == "zombie":
+                    if s in ("overlap", "with-exit-overlap", "overlap-finished") and ab == "zombie":
                         continue
                     configs.append(dict(base, script=s, k=k, abort=ab))
     items = []
     if quick:
         fields = ["n_jobs", "batch_size", "pre_dispatch", "return_as", "script"]
-        must = [c for c in configs if c["script"] in ("exhaust", "prompt")]
-        others = [c for c in configs if c["script"] not in ("exhaust", "prompt")]
+        # always: exhaust / prompt, and every abandonment script with the input already exhausted at the time of the
+        # abandonment (pre_dispatch='all': nothing left to iterate, only work in flight), both generator flavours
+        def is_must(c):
+            return c["script"] in ("exhaust", "prompt") or (
+                c["pre_dispatch"] == "all" and c["n_jobs"] == 2 and c["batch_size"] == 1 and c.get("abort", "drop") == "drop"
+                and c["script"] in ("close", "drop", "with-exit", "with-close", "with-exit-overlap", "overlap-finished"))
+        must = [c for c in configs if is_must(c)]
+        others = [c for c in configs if not is_must(c)]
         cover, rest = PC.pairwise_cover(others, fields + ["k", "abort"])
         sel = must + cover + PC.rotate_slice(rest, ctx.seed, 30)
         for c in sel:
@@ -180,7 +194,8 @@ def run(ctx):
     tot, outcomes, verdicts = PC.run_items(ctx, items, _work, sample_every=max(1, len(items) // 4))
     ctx.rule = ("consumer programs {exhaust; pull one by one under the withholding environment; close / drop / leave the "
                 "with block after k results then a fresh call; second call during an unfinished run, also after leaving the with "
-                "block with the generator still alive} x return_as in "
+                "block with the generator still alive; second call once every task of the first run has completed but its results "
+                "are only partly consumed} x return_as in "
                 "{generator, generator_unordered} x n_jobs x batch_size x pre_dispatch x {pool-like, zombie} environment; all "
                 "schedules within the bounds shown in samples. Promptness is judged at batch granularity. "
                 "distinct_nontrivial = distinct outcomes")
